@@ -23,7 +23,35 @@ type panicSite struct {
 }
 
 // facts: branch facts that hold at instruction in (dominating edges), rendered by condStr with polarity.
-func factsAt(in ssa.Instruction) []edgeCond { return controlling(in.Block()) }
+// factsAt: the branch facts that hold at in; every ordering comparison is given in both orientations
+// (`0 <= i` also as `i >= 0`), so that the rules need to look at one operand order only.
+func factsAt(in ssa.Instruction) []edgeCond {
+	base := controlling(in.Block())
+	out := append([]edgeCond{}, base...)
+	for _, ec := range base {
+		bo, ok := ec.Cond.(*ssa.BinOp)
+		if !ok {
+			continue
+		}
+		var m token.Token
+		switch bo.Op {
+		case token.LSS:
+			m = token.GTR
+		case token.LEQ:
+			m = token.GEQ
+		case token.GTR:
+			m = token.LSS
+		case token.GEQ:
+			m = token.LEQ
+		case token.EQL, token.NEQ:
+			m = bo.Op
+		default:
+			continue
+		}
+		out = append(out, edgeCond{If: ec.If, Cond: &ssa.BinOp{Op: m, X: bo.Y, Y: bo.X}, Pol: ec.Pol})
+	}
+	return out
+}
 
 // lenOf: if v is `len(x)` returns path(x).
 func lenOf(v ssa.Value) (string, bool) {
